@@ -162,6 +162,29 @@ example :
     a.ver 1 = some (86402000, 15) ∧ a.ver 2 = none ∧ a.dead 2 = true ∧ a.ver 3 = some (86402000, 16) := by
   decide +kernel
 
+/-- a pair of peers for the code-level refinement: peer 1 holds the deletion record of row 2 (pulled from peer 0's
+    deletion), peer 2 has not seen it, still holds row 2 and has meanwhile updated row 1 and created row 3 -/
+def refineCodeWorld : World :=
+  World.run Defects.repaired18FullHistory (World.init [true, true, true])
+    [.clock 1000, .write 0 (.new 1 1 0 1 11), .write 0 (.new 2 1 0 2 12), .compute 0, .pull 1 0 1, .pull 2 0 1,
+     .clock 86401000, .write 0 (.del 2 14), .compute 0, .pull 1 0 1,
+     .clock 86402000, .write 2 (.upd 1 4 15 none), .write 2 (.new 3 1 0 5 16), .compute 2]
+
+open Discret.SyncOrder in
+/-- non-vacuity of `C03_refines_pull_code` on the model of the repaired code: the puller holds a deletion record of
+    row 2, the source offers row 2 (#18's path), a newer version of row 1 and a new row 3; the decidable hypotheses hold
+    and the pull is the join, row by row: row 2 stays deleted, rows 1 and 3 arrive -/
+example :
+    let dst := refineCodeWorld.peer 1
+    let src := refineCodeWorld.peer 2
+    let a := abs (pull Defects.repaired18FullHistory [some 0, some 0, some 0] dst src 1).dst
+    let j := join (abs dst) (abs (inRoom src 1))
+    (∀ n ∈ dst.nodes ++ src.nodes, n.room = 1) ∧ (∀ t ∈ dst.ntombs ++ src.ntombs, t.room = 1) ∧
+    (∀ t ∈ dst.ntombs, ∀ n ∈ dst.nodes, n.id ≠ t.id) ∧ src.ntombs = [] ∧ src.nodes.map (·.id) = [1, 2, 3] ∧
+    [1, 2, 3, 4].map a.ver = [1, 2, 3, 4].map j.ver ∧ [1, 2, 3, 4].map a.dead = [1, 2, 3, 4].map j.dead ∧
+    a.ver 1 = some (86402000, 15) ∧ a.ver 2 = none ∧ a.dead 2 = true ∧ a.ver 3 = some (86402000, 16) := by
+  decide +kernel
+
 /-! ### the pull of the code does not refine the join: witnesses (each replayed on real instances, corpus/C03) -/
 
 def rowsAt (w : World) (p : Nat) : List (Nat × Nat × Nat) := (w.peer p).canon.nodes.map fun n => (n.id, n.mdate, n.sig)
